@@ -49,6 +49,11 @@ class P(Prop):
                         ci["out"] = [Fraction(int(x)) for x in ci["out"]]
                         ci["set"] = "by_input"
                 inp["int_loads"] = True
+            # the PTI/PTO's own on/off series, which the shaft balance does not read: off at some steps, full-PTI steps included
+            if rng.random() < 0.3:
+                for d, ci in zip(plant["mech"], inp["comps"]):
+                    if d["cls"] == "ptipto":
+                        ci["pti_status"] = [rng.random() < 0.5 for _ in range(n)]
             case = {"plant": plant, "inp": inp}
             # a second balance on the same object after ONLY the operating mode changed (engine statuses, full-PTI
             # flags); loads and PTI/PTO set-points stay as they are
@@ -192,6 +197,8 @@ class P(Prop):
                 t.append("two-loads-on-a-line")
         for d in plant["mech"]:
             t.append("cls:" + d["cls"])
+        if any(ci.get("pti_status") for ci in inp["comps"]):
+            t.append("pti-pto-switched-off-at-some-steps")
         if case.get("inp2"):
             t.append("second-balance-after-mode-change-only")
             if case.get("in_place2"):
